@@ -50,6 +50,29 @@ def model_text(m, limit=4000):
     return s[:limit]
 
 
+_PROP_E2E = {}
+
+
+def _property_e2e(pid):
+    """first failing real input found by the bounded end-to-end unit(s) of property `pid` on the current tree (None if none); cached per process"""
+    if pid in _PROP_E2E:
+        return _PROP_E2E[pid]
+    found = None
+    try:
+        from . import props
+        import importlib
+        for (kind, mod, name, o) in props.PROPS.get(pid, {}).get('units', []):
+            if kind != 'bounded': continue
+            r = getattr(importlib.import_module(mod), name)(dict(o, tier='quick'))
+            fs = [f for f in (r.get('failures') or []) if not (isinstance(f, dict) and f.get('case_id'))]      # listed known cases do not confirm anything new
+            if fs:
+                found = fs[0]; break
+    except Exception as ex:
+        found = None
+    _PROP_E2E[pid] = found
+    return found
+
+
 def run_op(contract, opts):
     from .world import World, TRUSTED_USED
     from .harness import OperatorRun, discharge_all
@@ -67,6 +90,12 @@ def run_op(contract, opts):
             except Exception as ex:
                 rp = {'status': 'replay-error', 'error': f'{type(ex).__name__}: {ex}', 'trace': traceback.format_exc(limit=6)}
             e2e = None
+            if not hasattr(contract, 'e2e_confirm') and (o.extra.get('needs_validation') or o.extra.get('candidate_only')):
+                # no contract-specific confirmation: a candidate (state outside the store / weakened hypotheses) counts when the end-to-end
+                # scenarios of the same property find a failing real input on this tree
+                e2e = _property_e2e(opts.get('pid'))
+                if e2e:
+                    rp['end_to_end'] = e2e; rp['status'] = 'reproduced'
             if hasattr(contract, 'e2e_confirm') and o.model is not None:
                 try:
                     ctx = next((cx for key, cx in getattr(run, 'ctxs', {}).items() if o.name.startswith(key + '/')), None)
